@@ -107,6 +107,7 @@ class Check:
         self.replay_dir = os.path.join(VERIF, "replay", pid)
         os.makedirs(self.replay_dir, exist_ok=True)
         self.violations = []      # (replay_path, suffix)
+        self.clause_counts = {}
         self.known_printed = []
         self.obligations = 0
         self.discharged = 0
@@ -176,11 +177,15 @@ class Check:
     def build_harness(self, comp, race=False):
         """builds go/cmd/<comp> against /repo's current working tree with -tags verif"""
         god = os.path.join(VERIF, "go")
-        with Lock("go"):
-            shutil.copy(os.path.join(REPO, "go.sum"), os.path.join(god, "go.sum"))
-            out_bin = os.path.join(self.work, "harness_" + comp + ("_race" if race else ""))
-            rc, out = sh(["go", "build", "-tags", "verif"] + (["-race"] if race else []) + ["-o", out_bin, "./cmd/" + comp],
-                         cwd=god, env=GOENV, timeout=1200)
+        # a private module file whose replace directive points at the tree under test (default /repo)
+        modfile = os.path.join(self.work, "go.mod")
+        mod = open(os.path.join(god, "go.mod")).read()
+        mod = re.sub(r"replace github.com/256dpi/gomqtt => .*", "replace github.com/256dpi/gomqtt => " + REPO, mod)
+        open(modfile, "w").write(mod)
+        shutil.copy(os.path.join(REPO, "go.sum"), os.path.join(self.work, "go.sum"))
+        out_bin = os.path.join(self.work, "harness_" + comp + ("_race" if race else ""))
+        rc, out = sh(["go", "build", "-modfile", modfile, "-tags", "verif"] + (["-race"] if race else []) +
+                     ["-o", out_bin, "./cmd/" + comp], cwd=god, env=GOENV, timeout=1200)
         if rc != 0:
             self.notes.append("harness build failed:\n" + out[-3000:])
             self.broken.append("harness does not build against /repo: " + out.strip()[-300:])
@@ -249,6 +254,9 @@ class Check:
             if k["id"] not in self.known_printed:
                 self.known_printed.append(k["id"])
             return
+        self.clause_counts[clause] = self.clause_counts.get(clause, 0) + 1
+        if self.clause_counts[clause] > 3:      # report the first few witnesses of a clause, count the rest
+            return
         path = self.write_replay(clause, replay_lines, header=("clause " + clause, text) + tuple(header))
         self.violations.append((path, ""))
 
@@ -284,6 +292,7 @@ class Check:
             "stats": self.stats,
             "known_findings_reproduced": self.known_printed,
             "broken": self.broken,
+            "failing_inputs_per_clause": self.clause_counts,
         }
         cov.update(self.extra)
         ev = {
